@@ -54,6 +54,7 @@ LEAN_TARGETS = ["DashLive.Props.C04"]
 GENERATORS = []
 TRUSTED = [
     "harness/c04_walk.py (independent ISO/IEC 14496-12 box walker) and harness/c04_impl.py (reads the attributes of the real objects)",
+    "harness/c04_gen.py, c04_synth.py, c04_pool.py (generators: field boundary pools, content classes of opaque payloads)",
     "Python str/bytes UTF-8 and ASCII codecs (strings are bytes in the model), struct, io.BytesIO",
     "the hand-written registry of the model (container / modelled / opaque codes) – compared with fourcc.BOXES on every run (channel registry)",
 ]
